@@ -3,7 +3,7 @@
 // files that were written with its OWN header/raw-data reader and logs everything as ndjson.
 // No expected values, no comparisons of results, no property formula: TLC (Trace_ImageIO.tla) decides.
 //
-//   c10_imageio rt    <out.ndjson> <ncases> <stage>   round trips (stage 0 quick, 1 thorough)
+//   c10_imageio rt    <out.ndjson> <ncases> <stage>   round trips (stage 0 quick, 1 thorough, 2 without types wider than int)
 //   c10_imageio trunc <out.ndjson> <stage>            data file truncated at every length
 //
 // Number encodings (DESIGN.md section 4):
@@ -616,13 +616,16 @@ int main(int argc, char** argv) {
       Case c;
       c.id = ++id;
       // every NumericType x ByteOrder x scale setting is visited systematically; the rest is seeded
-      c.type = (int)(n % 10);
-      c.bo = (int)((n / 10) % 2);
-      const int scale_setting = (int)((n / 20) % 4);     // 0 automatic, 1 one, 2 sufficient power of two, 3 insufficient power of two
-      const int kk = (n / 80) % 2 == 0 ? 0 : rng.range(0, 4);
+      // stage 2 (sanitizer pass while C10-roundint is open): without the types wider than int
+      static const int NARROW[7] = { 0, 1, 2, 3, 4, 8, 9 };
+      const int nt = stage == 2 ? 7 : 10;
+      c.type = stage == 2 ? NARROW[n % 7] : (int)(n % 10);
+      c.bo = (int)((n / nt) % 2);
+      const int scale_setting = (int)((n / (2 * nt)) % 4);     // 0 automatic, 1 one, 2 sufficient power of two, 3 insufficient power of two
+      const int kk = (n / (8 * nt)) % 2 == 0 ? 0 : rng.range(0, 4);
       c.kind = KINDS[kk][0]; c.fmt = KINDS[kk][1];
       c.nd = c.kind == "single" ? 1 : (c.kind == "par" ? 2 : rng.range(1, 3));
-      gen_geom(c, rng, c.kind == "single" ? (stage ? 12 : 8) : 4, rng.range(0, 9) == 0);
+      gen_geom(c, rng, c.kind == "single" ? (stage == 1 ? 12 : 8) : 4, rng.range(0, 9) == 0);
       gen_values(c, rng, DISTS[rng.range(0, NDISTS - 1)]);
       gen_exam(c, rng);
       // scale: relative to the magnitude of the data so that "sufficient" / "insufficient" are clear-cut
@@ -641,17 +644,18 @@ int main(int argc, char** argv) {
   } else if (mode == "trunc") {
     const int stage = atoi(argv[3]);
     // one image per on-disk type (+ containers): truncate the data file at every length
-    for (int t = 0; t < 10 + (stage ? 8 : 4); ++t) {
+    for (int t = 0; t < 10 + (stage == 1 ? 8 : 4); ++t) {
       Case c;
       c.id = ++id;
       c.type = t < 10 ? t : rng.range(0, 9);
+      if (stage == 2 && (c.type == 5 || c.type == 6 || c.type == 7)) c.type -= 3;
       c.bo = rng.range(0, 1);
       static const char* KINDS[4][2] = { { "dyn", "Interfile" }, { "par", "Interfile" }, { "dyn", "Multi" }, { "par", "Multi" } };
       if (t < 10) { c.kind = "single"; c.fmt = "Interfile"; } else { c.kind = KINDS[(t - 10) % 4][0]; c.fmt = KINDS[(t - 10) % 4][1]; }
       c.nd = c.kind == "single" ? 1 : 2;
-      gen_geom(c, rng, stage ? 5 : 4, false);
+      gen_geom(c, rng, stage == 1 ? 5 : 4, false);
       // keep the data file at a few hundred bytes
-      while ((long)c.sz[0] * c.sz[1] * c.sz[2] * TYPES[c.type].bytes * c.nd > (stage ? 600 : 320)) { int d = rng.range(0, 2); if (c.sz[d] > 1) --c.sz[d]; }
+      while ((long)c.sz[0] * c.sz[1] * c.sz[2] * TYPES[c.type].bytes * c.nd > (stage == 1 ? 600 : 320)) { int d = rng.range(0, 2); if (c.sz[d] > 1) --c.sz[d]; }
       gen_values(c, rng, "nonneg");
       gen_exam(c, rng);
       c.scale_m = 1; c.scale_e = 0;   // (1-byte types: too small, the library switches to its automatic scale)
